@@ -191,6 +191,19 @@ PROPS = {
         "rule": "2-4 expressions per case (typed scalar expressions over leaf values, location paths with predicates over the recording mock tree); each machine is compiled once and run once in isolation, then 3 more times sequentially, "
                 "then by 4 goroutines x 5 runs each at once while 3 goroutines compile and run the same and other expressions (18 compiles); every result must equal the isolated one and the Lean model's; the harness is built with the race detector and any report fails the batch",
     },
+    "C19": {
+        "streams": {"yenc": {"quick": 2000, "thorough": 100000},
+                    "yencfuzz": {"quick": 4000, "thorough": 300000, "spec_proj": "encfuzz", "proj_model": True}},
+        "trusted": ["encoding/json, danos/encoding/rfc7951 and encoding/xml (bytes <-> values, escaping) are trusted: the Lean model starts at JSON values / XML elements; the harness re-parses the produced bytes with encoding/json to obtain the value tree it compares",
+                    "the conformance checker of decoded trees (harness) uses the real Type.Validate of the compiled schema"],
+        "modelled": ["a list or leaf-list node without entries is not part of a valid tree and is not generated for the round trip",
+                     "XML namespaces / prefixes of identityref values are exercised (identities of another module) but only the decoded value is compared",
+                     "for mutated documents the model predicts nothing but 'an error or a conforming tree'; for the tamper table it predicts the exact outcome"],
+        "rule": "yenc: random schemas (twelve leaf types: 8..64-bit integers with extremes and 2^53+1, decimal64 extremes, strings needing escaping in JSON and XML, boolean, enumeration, empty, identityref across modules; ordered-by user lists and leaf-lists) "
+                "with random valid trees; the tree is encoded as RFC 7951, JSON and XML by the real encoders, the JSON bytes are re-parsed and compared with the Lean writer model value by value, each encoding is decoded by the real decoder and the tree compared with the original and with the Lean reader model; "
+                "yencfuzz: the whole tamper table first (9 leaf types x 29 literals x 2 JSON encodings: fractions, exponents, out-of-range and 64-bit numbers, booleans, null, [null], strings for numbers ...) with the exact outcome predicted by the Lean reader + type model, "
+                "then valid encodings with 1-3 mutations (byte deletion / duplication / swap, value replaced by another JSON shape, digits changed, truncation, trailing data) decoded under recover and checked for conformance with the schema",
+    },
     "C04": {
         "streams": {"xsmall": {"quick": 1, "thorough": 1, "spec_proj": "accept"},
                     "xfuzz": {"quick": 30000, "thorough": 1000000, "spec_proj": "accept"}},
